@@ -647,6 +647,20 @@ def once_each(order):
     return out
 
 
+class _TempfileStub:
+    """Environment stub for exactly_lib.processing.preprocessor.tempfile: anonymous temporary files with
+    counter-based names (CrossHair makes `random`, and with it the names tempfile chooses, symbolic)."""
+    n = 0
+
+    @staticmethod
+    def TemporaryFile(prefix: str = 'tmp', mode: str = 'w+b', **kw):
+        _TempfileStub.n += 1
+        path = os.path.join(scratch.root(), '%s%d' % (prefix, _TempfileStub.n))
+        f = open(path, mode)
+        os.unlink(path)
+        return f
+
+
 _MAIN_PROGRAM = []
 
 
@@ -693,10 +707,11 @@ def run_main_program_on_suite(tree: Tree, root: str, junit: bool, kind_of_rel: O
     """Writes `tree` into a fresh scratch directory and runs the REAL MainProgram.execute(['suite', ...]).
     With kind_of_rel the case processor constructor is replaced by the recording stub processor (outcome of the
     case with rel path p = kind_of_rel(p)); with None the real case processor runs the case files."""
-    from exactly_lib.processing import processors
+    from exactly_lib.processing import processors, preprocessor
     from exactly_lib.execution import sandbox_dir_resolving
     from exactly_lib.util.file_utils.std import StdOutputFiles
     install_clock()
+    real_tempfile = preprocessor.tempfile
     work = scratch.new_dir('suite')
     work_real = os.path.realpath(work)
     tree.write(work)
@@ -742,6 +757,7 @@ def run_main_program_on_suite(tree: Tree, root: str, junit: bool, kind_of_rel: O
     cwd = os.getcwd()
     processors.new_processor_that_should_not_pollute_current_process = constructor
     sandbox_dir_resolving.mk_tmp_dir_with_prefix = mk_tmp_dir_with_prefix
+    preprocessor.tempfile = _TempfileStub
     try:
         with _GlobOrder(glob_rot, glob_rev):
             try:
@@ -751,6 +767,7 @@ def run_main_program_on_suite(tree: Tree, root: str, junit: bool, kind_of_rel: O
     finally:
         processors.new_processor_that_should_not_pollute_current_process = real_constructor
         sandbox_dir_resolving.mk_tmp_dir_with_prefix = real_mk_tmp
+        preprocessor.tempfile = real_tempfile
         try:
             os.chdir(cwd)
         except OSError:
